@@ -6,6 +6,23 @@ V = os.path.dirname(os.path.dirname(os.path.abspath(__file__)))
 props = [json.loads(l) for l in open(os.path.join(V, 'properties.jsonl'))]
 
 CHECKS = {
+    'C01': dict(
+        category='exploration', design_ref='DESIGN.md §4 C01',
+        technique='runtime monitoring: coverage-guided fuzzing (libFuzzer) and generated pathological inputs under ASan+UBSan with an exception-type monitor and a re-run-once watchdog',
+        text='A libFuzzer harness drives SAXParser, SAX2XMLReader, XercesDOMParser and DOMLSParser x four scanners x validation schemes x feature bits (schema, full checking, '
+             'external DTD, entity-reference nodes, small entity-expansion limit, chunked delivery, XInclude, identity constraints) with documents, DTDs, schemas and external entities '
+             'served from the fuzz input; seeds are the repository\'s sample/XSTS/XInclude files plus generated documents and mutants. 30 pathological shapes (10^4-10^5 nesting, '
+             '2x10^4 attributes, 70K names, 10^3-leaf content models, 2000-link entity chains, entity bomb under a limit, garbage in UTF-16/UCS-4/EBCDIC) run through the batch driver. '
+             'Any sanitizer report, undocumented exception type, or reproducible non-termination is a violation.',
+        note='Trusted: clang ASan/UBSan (object-size and nonnull-attribute sub-checks excluded, see DESIGN §3). Red-zone limits apply; only paths the corpus and mutations reach are covered. '
+             'continue-after-fatal-error is documented as undetermined behaviour and is excluded from the oracle; parameter-entity expansion is not bounded (see C19 finding).'),
+    'C15': dict(
+        category='exploration', design_ref='DESIGN.md §4 C15',
+        technique='runtime monitoring: differential oracle over operation histories (n-th operation on a used parser vs the same operation on a fresh parser), under ASan+UBSan',
+        text='Sequences of 6-30 operations on one parser object of each API (SAX, SAX2, DOM, DOMLS, progressive SAX2/DOM): parses of valid, invalid and malformed documents that share '
+             'element/ID/entity names and schemas, handler exceptions thrown at the k-th callback, progressive parses abandoned after k steps with and without parseReset, feature and scanner '
+             'switches, adoptDocument. Each step must equal (events, error codes, positions, status) the same step on a fresh parser; adopted documents are re-dumped at the end.',
+        note='Trusted: the fresh-parser run of the same build as reference. Grammar caching is off here (cached-grammar transparency belongs to the C16 workload).'),
     'C02': dict(
         category='exploration', design_ref='DESIGN.md §4 C02',
         technique='runtime monitoring: labelled workload (generated well-formed documents, single-constraint mutants) with verdict oracle, pyexpat as discarding second opinion, under ASan+UBSan',
